@@ -385,6 +385,12 @@ impl ModuleManager {
             imports.remove(name);
         }
 
+        // Drop the other modules' import declarations that name the deleted module, so the
+        // declarations stay in step with the import graph (no dangling or resurrected imports)
+        for module in self.modules.values_mut() {
+            module.imports.retain(|import| import.from_module != name);
+        }
+
         Ok(())
     }
 
